@@ -7,6 +7,19 @@ by the property files C03, C04, C05, C10, C11.
 -/
 namespace LruMem
 
+/-- Outputs that are errors (the operation was rejected or handed the entry back). -/
+def Out.isErr : Out → Bool
+  | .insTooLarge .. | .tryTooLarge .. | .tryWouldEject .. | .tryOccupied .. | .mutTooLarge ..
+  | .reserveOverflow | .reserveAlloc => true
+  | _ => false
+
+/-- The entry that a storing operation links at the most-recently-used end when it succeeds. -/
+def storedLast (p : Params) (c : Cache) : Op → Option Entry
+  | .insert k v => some ⟨k, v, entrySize p k v⟩
+  | .tryInsert k v => some ⟨k, v, entrySize p k v⟩
+  | .mutate id f => (lookup c.entries id).map fun e => ⟨e.key, (f e.val).1, entrySize p e.key (f e.val).1⟩
+  | _ => none
+
 /-- `insert` of a pair that fits the limit: the duplicate key is removed first, then exactly the
 minimal LRU prefix of the *others*, then the new entry is linked at the MRU end. -/
 theorem insert_spec {p : Params} {c : Cache} (k : Key) (v : Val) (o : Oracle) (h : InvA p c)
